@@ -152,6 +152,7 @@ type DCase struct {
 	Goroutines int      `json:"goroutines,omitempty"`
 	Repeat     int      `json:"repeat,omitempty"`
 	Seed       int64    `json:"seed,omitempty"`
+	Expect     []DPResult `json:"expect,omitempty"`
 }
 
 type DResult struct {
